@@ -260,7 +260,9 @@ def boundary_polygon(cells):
 
 
 LINES = [([0.0, 1.0, 2.0, 3.0, 4.0], [0.0, 1.0, 2.0, 3.0, 4.0]), ([0.0, 1.0, 2.5, 3.0, 4.75], [10.0, 10.5, 12.0, 13.0, 13.3]),
-         ([0.0, 0.1, 0.2, 0.30000000000000004, 0.4], [0.0, 1 / 3, 2 / 3, 1.0, 4 / 3])]
+         ([0.0, 0.1, 0.2, 0.30000000000000004, 0.4], [0.0, 1 / 3, 2 / 3, 1.0, 4 / 3]),
+         # coordinates that look like markers: -1 is the padding value of FloorSet vertex arrays (added after seed C15-7)
+         ([-1.0, 0.0, 1.0, 2.0, 3.0], [-2.0, -1.0, 0.0, 1.0, 2.0])]
 
 
 @contract(P, kind="enum", functions=[T + "utils.utils.strop_decomposition", T + "utils.utils.is_point_inside_polygon", "frame.geometry.geometry.create_stog"],
@@ -286,16 +288,20 @@ def polygons_decomposed_with_their_area(chunk, replay=None):
             if poly is None:
                 continue
             decomposable = bool(oracle_trunks(m))
-            for li, (xs, ys) in enumerate(LINES if tier == "thorough" else LINES[:2] + ([LINES[2]] if n % 5 == 0 else [])):
+            for li, (xs, ys) in enumerate(LINES if tier == "thorough" else LINES[:2] + ([LINES[2]] if n % 5 == 0 else []) + ([LINES[3]] if n % 3 == 0 else [])):
                 # y grows upwards in the floorplan: row i spans ys'[nr - i - 1] .. ys'[nr - i]
                 Y = ys[:nr + 1]
                 X = xs[:nc + 1]
                 pts = [(X[c], Y[nr - r]) for (c, r) in poly]
                 area = sum((X[j + 1] - X[j]) * (Y[nr - i] - Y[nr - i - 1]) for (i, j) in cells)
-                variants = [pts, list(reversed(pts)), pts[2:] + pts[:2], pts + [pts[0]]]
+                variants = [pts, list(reversed(pts)), pts[2:] + pts[:2], pts + [pts[0]], pts]
                 for vi, vs in enumerate(variants):
                     evals += 1
-                    verts = [Point(x, y) for x, y in vs]
+                    if vi == 4:         # the other accepted input type: a (k, 2) numpy array
+                        import numpy as np
+                        verts = np.array(vs, dtype=float)
+                    else:
+                        verts = [Point(x, y) for x, y in vs]
                     try:
                         rects = fu.strop_decomposition(verts)
                     except AssertionError:
@@ -319,7 +325,9 @@ def polygons_decomposed_with_their_area(chunk, replay=None):
                         continue
                     Rectangle.undefine_epsilon()
                     Rectangle.set_epsilon(1e-9 * min(X[-1] - X[0], Y[-1] - Y[0]))
-                    rs = [parse_yaml_rectangle(r) for r in rects]
+                    # a module's rectangles live in the positive quadrant: polygons drawn elsewhere are translated before they are loaded
+                    ox, oy = max(0.0, -X[0]) + (1.0 if X[0] < 0 else 0.0), max(0.0, -Y[0]) + (1.0 if Y[0] < 0 else 0.0)
+                    rs = [parse_yaml_rectangle([r[0] + ox, r[1] + oy] + list(r[2:])) for r in rects]
                     first = rs[0]
                     ok = create_stog(rs)
                     if not ok or rs[0].location != Rectangle.StogLocation.TRUNK:
@@ -335,7 +343,7 @@ def polygons_decomposed_with_their_area(chunk, replay=None):
     Rectangle.undefine_epsilon()
     return dict(evaluations=evals, distinct_nontrivial=nontrivial, exhaustive=True, failures=failures[:4],
                 rule="every 4-connected hole-free cell pattern on lattices up to 4x4 (touching all four sides) traced to its boundary vertex "
-                     "list; given counter-clockwise, clockwise, rotated and closed; coordinates through 2-3 line sets (unit, non-uniform, "
+                     "list; given counter-clockwise, clockwise, rotated, closed, and as a numpy array; coordinates through 2-4 line sets (unit, non-uniform, negative incl. -1, "
                      "decimal); oracle: cell areas, brute-force decomposability; then parse_yaml_rectangle + create_stog; non-trivial = "
                      "distinct decomposable (polygon, scaling, variant) cases",
                 samples=samples or ["none"], bound="4x4 lattice")
